@@ -134,3 +134,18 @@ func Harness_C18_q_overwrite_size_classes() {
 	}
 	verif.Reach("end")
 }
+
+// One Set / Get / reopen / Get for EVERY value length 0..4096 (the property's range).
+func Harness_C18_q_every_value_length() {
+	dir := verif.TempDir("c18l")
+	st, _ := NewFileStorage(dir)
+	n := verif.Choice("len", 4097)
+	v := verif.Bytes("v", n)
+	verif.Assert(st.Set("k.e", v) == nil, "set-ok")
+	g, err := st.Get("k.e")
+	verif.Assert(err == nil && verif.Eq(g, v), "get-returns-last-value-set")
+	st2, _ := NewFileStorage(dir)
+	g2, err2 := st2.Get("k.e")
+	verif.Assert(err2 == nil && verif.Eq(g2, v), "value-survives-reopen")
+	verif.Reach("end")
+}
